@@ -86,7 +86,10 @@ where
             let indent = self.make_indent();
             for c in cg.iter() {
                 let first_char = c.fragment.chars().nth(0).unwrap_or('\0');
-                if !first_char.is_whitespace() {
+                if c.fragment.trim_end().is_empty() {
+                    // a blank comment stays blank
+                    writeln!(self.w, "{}//", indent)?;
+                } else if !first_char.is_whitespace() {
                     writeln!(self.w, "{}// {}", indent, c.fragment.trim_end())?;
                 } else {
                     writeln!(self.w, "{}//{}", indent, c.fragment.trim_end())?;
